@@ -249,6 +249,23 @@ func outgroupCase(c *core.Ctx, i int) {
 		}
 		return n.At(paths[1+c.G.Intn(len(paths)-1)])
 	}
+	if c.G.Chance(0.04) {
+		// two inner nodes with the same name: the node index, hence the rooting, is refused
+		var inner []*core.N
+		for _, p := range paths {
+			if x := n.At(p); len(p) > 0 && len(x.Kids) > 0 {
+				inner = append(inner, x)
+			}
+		}
+		if len(inner) >= 2 {
+			inner[0].Name, inner[len(inner)-1].Name = "same", "same"
+		}
+	}
+	remove, strict := c.G.Chance(0.3), c.G.Chance(0.5)
+	forced := kind == "nonclade" && c.G.Chance(0.4)
+	if forced {
+		remove, strict = true, false // everything below the ancestor of the outgroup is removed
+	}
 	switch kind {
 	case "clade":
 		x := pick()
@@ -263,7 +280,11 @@ func outgroupCase(c *core.Ctx, i int) {
 		S = x.Leaves()
 	case "complement":
 		in := map[string]bool{}
-		for _, x := range pick().Leaves() {
+		x := pick()
+		for j := 0; remove && len(x.Leaves()) < 2 && j < 5; j++ {
+			x = pick() // with removal at least two tips must stay for the rooting to be possible
+		}
+		for _, x := range x.Leaves() {
 			in[x] = true
 		}
 		for _, x := range all {
@@ -272,6 +293,12 @@ func outgroupCase(c *core.Ctx, i int) {
 			}
 		}
 	case "nonclade":
+		// half of the time a proper part of a clade that meets every child of its top node, the clade
+		// lying away from the first tip and leaving at least two tips outside: the ancestor of the
+		// outgroup is that node, non-strict rooting (and removal) succeeds
+		if S = partOfClade(c, n, forced); S != nil {
+			break
+		}
 		k := 2
 		if len(all) > 3 {
 			k += c.G.Intn(len(all) - 2)
@@ -308,11 +335,65 @@ func outgroupCase(c *core.Ctx, i int) {
 		}
 	}
 	c.G.R.Shuffle(len(S), func(a, b int) { S[a], S[b] = S[b], S[a] })
-	remove, strict := c.G.Chance(0.3), c.G.Chance(0.5)
-	if kind == "nonclade" && c.G.Chance(0.4) {
-		remove, strict = true, false // everything below the ancestor of the outgroup is removed
-	}
 	doOutgroup(c, n, remove, strict, S, kind)
+}
+
+func partOfClade(c *core.Ctx, n *core.N, always bool) []string {
+	if !always && c.G.Chance(0.5) {
+		return nil
+	}
+	all := n.TipNames()
+	var cands []*core.N
+	for _, p := range n.Paths() {
+		if len(p) == 0 {
+			continue
+		}
+		x := n.At(p)
+		lv := x.Leaves()
+		if len(x.Kids) < 2 || len(lv) < 3 || len(all)-len(lv) < 2 {
+			continue
+		}
+		first := false
+		for _, l := range lv {
+			if l == all[0] {
+				first = true
+			}
+		}
+		if !first {
+			cands = append(cands, x)
+		}
+	}
+	if len(cands) == 0 {
+		return nil
+	}
+	x := cands[c.G.Intn(len(cands))]
+	var S, extra []string
+	for _, k := range x.Kids {
+		lv := k.Leaves()
+		m := c.G.Intn(len(lv))
+		for j, l := range lv {
+			if j == m {
+				S = append(S, l)
+			} else if c.G.Chance(0.5) {
+				S = append(S, l)
+				extra = append(extra, l)
+			}
+		}
+	}
+	if len(S) == len(x.Leaves()) {
+		if len(extra) == 0 {
+			return nil
+		}
+		drop := extra[c.G.Intn(len(extra))]
+		var S2 []string
+		for _, l := range S {
+			if l != drop {
+				S2 = append(S2, l)
+			}
+		}
+		S = S2
+	}
+	return S
 }
 
 func midpointCase(c *core.Ctx) {
@@ -367,6 +448,15 @@ func doOutgroup(c *core.Ctx, n *core.N, remove, strict bool, S []string, kind st
 	var err error
 	p, msg := quiet(func() { err = t.RerootOutGroup(remove, strict, S...) })
 	oc, dump := after(t, err, p, msg)
+	if oc == "err" {
+		// a refusal: the last field carries the message of the error and the state the tree was left in
+		// ("E" message "|" dump, or "|!" when that state is not a well-formed tree any more)
+		_, st := after(t, nil, false, "")
+		if st == "" {
+			st = "!"
+		}
+		dump = "E" + core.Escape(err.Error()) + "|" + st
+	}
 	c.Emit("C05.outgroup", n.Dump(), b01(remove), b01(strict), core.StrList(S), kind, oc, dump)
 }
 
